@@ -5,6 +5,8 @@ from hypothesis import strategies as st
 from amaranth.hdl import (Module, Signal, Const, Cat, ClockDomain, ClockSignal, Instance, IOPort, IOBufferInstance, Fragment,
                           signed, unsigned)
 from amaranth.lib.memory import Memory
+from amaranth.lib import data as am_data, wiring
+from amaranth.lib.wiring import In, Out
 from amaranth.back import rtlil
 
 from vlib.runner import Part, Mismatch, HarnessError
@@ -20,8 +22,10 @@ RULE = ("soup: Hypothesis generates hierarchies built to stress naming and port 
         "among non-empty siblings, anonymous submodules, structural-only intermediate modules, signals driven in one "
         "leaf and read in a leaf of another branch (routed through two intermediate modules), memories, I/O ports (auto "
         "added, same-named, shared between modules) with I/O buffer instances, and foreign instances with p_/a_/i_/o_/io_ "
-        "arguments (ints beyond 2^31 and below -2^31, negative ints, strings with quotes, backslashes, newlines and "
-        "tabs, floats, signed and unsigned Const). trees: C04's generated designs. Every emitted document is parsed by "
+        "arguments, signals of struct / array shape sharing names (ints beyond 2^31 and below -2^31, negative ints, strings with quotes, backslashes, newlines and "
+        "tabs, floats, signed and unsigned Const). trees: C04's generated designs. components: wiring.Component objects with "
+        "generated signatures (arrayed members, nested and arrayed nested signatures) converted without a port list - the "
+        "top module's ports must be exactly the flattened members with their directions and widths. Every emitted document is parsed by "
         "the independent reader and must satisfy the validity predicate of vlib/rtlil_check.py: grammar; every "
         "referenced wire/memory/module exists; unique names per module; equal widths on both sides of every connect, "
         "process assign and cell port versus its width parameter; slices within bounds; port indices unique and dense; "
@@ -48,7 +52,7 @@ def soups(draw):
         leaves.append({"w": draw(st.one_of(INT(0, 1), INT(1, 5))), "name": PICK(draw, NAMES + [""]),
                        "dom": PICK(draw, ["comb", "sync", "comb"]), "reads": draw(INT(0, nleaf - 1)),
                        "anon": draw(BOOL), "mem": draw(INT(0, 3)) == 0, "pad": draw(INT(0, 3)) == 0,
-                       "branch": draw(INT(0, 1))})
+                       "branch": draw(INT(0, 1)), "agg": PICK(draw, [None, None, "struct", "array"])})
     inst = None
     if draw(INT(0, 1)):
         big = draw(st.one_of(st.sampled_from([2 ** 31 - 1, 2 ** 31, 2 ** 40 + 5, -1, -5, -2 ** 31, -2 ** 31 - 1, -2 ** 33 - 7, -2 ** 63 + 1]),
@@ -76,7 +80,13 @@ def build_soup(desc):
     for i, lf in enumerate(desc["leaves"]):
         m = Module()
         kw = {"name": lf["name"]} if lf["name"] != "" else {"name": ""}
-        s = Signal(lf["w"], **kw)
+        if lf.get("agg") and lf["w"] >= 2:
+            # a signal with an aggregate shape (the back end emits a wire per field next to it, named after the signal)
+            shape = (am_data.StructLayout({"x": 1, "y": lf["w"] - 1}) if lf["agg"] == "struct" else
+                     am_data.ArrayLayout(1, lf["w"]))
+            s = Signal(shape, **kw).as_value()
+        else:
+            s = Signal(lf["w"], **kw)
         leaf_mods.append(m); leaf_sigs.append(s)
     inp = Signal(4, name=desc["top_sig_name"])
     for i, lf in enumerate(desc["leaves"]):
@@ -260,7 +270,82 @@ def soup_body(ctx, desc):
     if any(lf["mem"] for lf in desc["leaves"]): keys.append("soup:memory")
     if any(lf["w"] == 0 for lf in desc["leaves"]) or desc["zero_port"]: keys.append("soup:zero-width")
     if any(desc["leaves"][lf["reads"]]["branch"] != lf["branch"] for lf in desc["leaves"]): keys.append("soup:routed-across-branches")
+    aggs = [lf["name"] for lf in desc["leaves"] if lf.get("agg") and lf["w"] >= 2]
+    if aggs: keys.append("soup:aggregate-shaped-signal")
+    if len(set(aggs)) < len(aggs): keys.append("soup:aggregate-shaped-signals-sharing-a-name")
     ctx.note(desc, len(design.modules) >= 2 or "soup:name-clash" in keys or desc["inst"] is not None, *keys, evals=1)
+
+
+# ------------------------------------------------------------------------------------------ components
+@st.composite
+def components(draw):
+    """A wiring.Component converted without an explicit port list: the ports come from its signature."""
+    def members(depth):
+        out = []
+        for i in range(draw(INT(1, 3))):
+            dims = [draw(INT(1, 2)) for _ in range(draw(INT(0, 2)))]
+            if depth > 0 and draw(INT(0, 2)) == 0:
+                out.append({"name": f"m{i}", "flow": PICK(draw, ["in", "out"]), "dims": dims, "sig": members(depth - 1)})
+            else:
+                out.append({"name": f"m{i}", "flow": PICK(draw, ["in", "out"]), "dims": dims, "w": draw(INT(0, 4)),
+                            "signed": draw(BOOL)})
+        return out
+    return {"members": members(2)}
+
+
+def _signature(ms):
+    d = {}
+    for mm in ms:
+        desc = _signature(mm["sig"]) if "sig" in mm else (signed(mm["w"]) if mm["signed"] and mm["w"] else unsigned(mm["w"]))
+        mem = (In if mm["flow"] == "in" else Out)(desc)
+        if mm["dims"]:
+            mem = mem.array(*mm["dims"])
+        d[mm["name"]] = mem
+    return wiring.Signature(d)
+
+
+def component_body(ctx, case):
+    with warnings.catch_warnings():
+        warnings.simplefilter("ignore")
+        sig = _signature(case["members"])
+
+        class Comp(wiring.Component):
+            def __init__(self):
+                super().__init__(sig)
+
+            def elaborate(self, platform):
+                m = Module()
+                leaves = [(path, fl, v) for path, fl, v in self.signature.flatten(self)]
+                ins = [v for _, fl, v in leaves if fl.flow == wiring.In]
+                acc = Cat(*ins) if ins else Const(0, 1)
+                for _, fl, v in leaves:
+                    if fl.flow == wiring.Out:
+                        m.d.comb += v.eq(acc)
+                return m
+        comp = Comp()
+        expected = {"__".join(map(str, path)): ("input" if fl.flow == wiring.In else "output", len(v))
+                    for path, fl, v in sig.flatten(comp)}
+        text = rtlil.convert(comp)
+    design = validate(text, {}, "component", case)
+    top = [m for m in design.modules.values() if "\\top" in m.attrs]
+    if len(top) != 1:
+        raise Mismatch("component-top-module", count=len(top))
+    got = {w.name.lstrip("\\"): (w.port_kind, w.width) for w in top[0].wires.values() if w.port_kind}
+    want = {k: v for k, v in expected.items() if v[1] > 0}
+    got = {k: v for k, v in got.items() if v[1] > 0}
+    if got != want:
+        raise Mismatch("component-ports", expected={k: list(v) for k, v in sorted(want.items())},
+                       actual={k: list(v) for k, v in sorted(got.items())})
+    keys = ["comp:design"]
+    def walk(ms, depth=0):
+        for mm in ms:
+            if mm["dims"]: keys.append("comp:arrayed-member")
+            if "sig" in mm:
+                keys.append("comp:nested-signature")
+                if mm["dims"]: keys.append("comp:arrayed-nested-signature")
+                walk(mm["sig"], depth + 1)
+    walk(case["members"])
+    ctx.note(case, "comp:arrayed-member" in keys, *sorted(set(keys)), evals=1)
 
 
 def tree_body(ctx, case):
@@ -291,9 +376,12 @@ def parts(tier):
     return [
         Part("soup", "hyp", strategy=soups(), body=soup_body, n=300 if q else 5000),
         Part("trees", "hyp", strategy=c04.cases(1 if q else 2, 2), body=tree_body, n=60 if q else 1000),
+        Part("components", "hyp", strategy=components(), body=component_body, n=60 if q else 1000),
     ]
 
 
 REQUIRED = ["soup:>=2-modules", "soup:name-clash", "soup:private-name", "soup:instance", "soup:wide-int-parameter",
             "soup:int-parameter-below--2^31", "soup:empty-submodule", "soup:io-buffers", "soup:same-named-io-ports",
-            "soup:memory", "soup:zero-width", "soup:routed-across-branches", "tree:>=3-modules", "tree:memory"]
+            "soup:memory", "soup:zero-width", "soup:routed-across-branches", "tree:>=3-modules", "tree:memory",
+            "soup:aggregate-shaped-signal", "soup:aggregate-shaped-signals-sharing-a-name", "comp:arrayed-member",
+            "comp:nested-signature", "comp:arrayed-nested-signature"]
